@@ -36,6 +36,8 @@ def main():
         if os.path.isdir(cand):
             src = cand
     dst = f"/verif/seeded/{pid}-{n}"
+    if "--as" in a:
+        dst = "/verif/seeded/" + a[a.index("--as") + 1]
     if src:
         os.makedirs(dst, exist_ok=True)
         for f in ("patch.diff", "demo_test.go"):
@@ -45,7 +47,7 @@ def main():
         agent_meta = json.load(open(os.path.join(dst, "meta.json"))).get("agent", {})
     if os.path.isdir(f"{wt}/SEED"):
         os.rename(f"{wt}/SEED", f"{wt}/_SEED")
-    meta = {"property": pid, "seed": f"{pid}-{n}", "agent": agent_meta, "needs": agent_meta.get("needs", ""), "summary": agent_meta.get("summary", "")}
+    meta = {"property": agent_meta.get("property", pid), "seed": os.path.basename(dst), "agent": agent_meta, "needs": agent_meta.get("needs", ""), "summary": agent_meta.get("summary", "")}
     ver = {}
     sh("git checkout -- . && rm -f zz_seed_demo_test.go", wt)
     demo = os.path.join(dst, "demo_test.go")
